@@ -59,7 +59,7 @@ pub fn run_verify(flags: &[&str], files: &[(&str, &str)]) -> Result<(i32, String
         args.push(p.display().to_string());
     }
     let argv: Vec<&str> = args.iter().map(|s| s.as_str()).collect();
-    let (rc, _stdout, stderr) = run_anthem(&argv, None)?;
+    let (rc, _stdout, stderr) = crate::simp::run_anthem_within(&argv, None, 30)?;
     let mut names: Vec<String> = std::fs::read_dir(&out).map_err(|e| e.to_string())?.filter_map(|e| e.ok()).map(|e| e.file_name().to_string_lossy().into_owned()).collect();
     names.sort();
     let mut problems = Vec::new();
@@ -251,6 +251,7 @@ pub fn check_pair(left: &str, right: &str, flag_sets: &[&[&str]], n_interp: usiz
         all.extend(flags.iter());
         let what = format!("anthem verify {} {input}", all.join(" "));
         let (rc, err, problems) = match run_verify(&all, &[("a.lp", left), ("b.lp", right)]) { Ok(x) => x, Err(e) => { fails.push(Failure { property: "harness", input: what, detail: e }); return; } };
+        if rc == crate::simp::TIMED_OUT { fails.push(Failure { property: "C18", input: what.clone(), detail: "anthem verify does not end (no result after 30 s; the process was killed)".into() }); }
         if rc != 0 {
             fails.push(Failure { property: "C03", input: what, detail: format!("exit status {rc}, {} problems: {}", problems.len(), err.lines().take(3).collect::<Vec<_>>().join(" / ")) });
             continue;
